@@ -585,6 +585,22 @@ class Interp:
             return None
         ety, vname = plain.rsplit("::", 1)
         base = ety.split("::")[-1]
+        if ety.endswith("::__tokio_select_util::Out"):
+            # the output enum tokio::select! declares at every expansion: Out::_0(..), Out::_1(..), ..., Out::Disabled
+            m = re.match(r"^_(\d+)$", vname)
+            if m:
+                return ety, int(m.group(1)), vname
+            if vname == "Disabled":
+                cache = self.prog.__dict__.setdefault("_select_out", {})
+                if ety not in cache:
+                    ks = set()
+                    for fname in self.prog.fn_index:
+                        mm = re.match(r"^(.*::__tokio_select_util::Out)::_(\d+)(@\d+)?$", fname)
+                        if mm and strip_generics(re.sub(r"<impl at [^>]*>", "", mm.group(1))).split("::")[-4:] == strip_generics(re.sub(r"<impl at [^>]*>", "", ety)).split("::")[-4:]:
+                            ks.add(int(mm.group(2)))
+                    cache[ety] = (max(ks) + 1) if ks else 2
+                return ety, cache[ety], vname
+            return None
         if base in STD_ENUMS and vname in STD_ENUMS[base]:
             return ety, STD_ENUMS[base].index(vname), vname
         if ety.startswith(("std::", "core::", "alloc::")):
@@ -657,8 +673,13 @@ class Interp:
         if kind == "array":
             return Seq("array", vals, elem_type(dest_ty))
         if kind == "closure":
+            vals = self._complete_upvars(fr, name, ops, vals)
             if name.startswith("{coroutine"):
                 return Agg(name, SparseF(vals))
+            if "/.cargo/registry/" in name or "/rustc/" in name:
+                # a closure written inside a macro of another crate (tokio::select!, tracing): its span is the same
+                # at every expansion site, so remember the function that creates it
+                return Agg(name + "#in:" + fr.body.name, vals)
             return Agg(name, vals)
         plain = strip_generics(name)
         ev = self.enum_variant(plain)
@@ -667,14 +688,50 @@ class Interp:
             return Enum(ty, idx, vname, vals)
         return Agg(plain, vals)
 
+    def _complete_upvars(self, fr, name, ops, vals):
+        """rustc's MIR printer names the captured *variables* of a closure / async block, so with disjoint field
+        capture (`self.a`, `self.b` captured separately) it prints `{ self: move _45 }` although the aggregate has
+        one operand per captured place. The operands are temporaries assigned right before the aggregate with
+        consecutive numbers; the expected count comes from the `(*_N).K` upvar places in the body's debug lines."""
+        if not ops or ops[-1][0] not in ("move", "copy") or ops[-1][1].proj:
+            return vals
+        fn = self.async_block_fn(name) if name.startswith("{coroutine") else None
+        if fn is None and name.startswith("{closure@"):
+            try:
+                fn = self.closure_fn(Agg(name, []))
+            except Exception:
+                fn = None
+        if fn is None:
+            return vals
+        cache = self.prog.__dict__.setdefault("_upvar_count", {})
+        if fn not in cache:
+            i = self.prog.fn_index[fn]
+            mx = -1
+            while i < len(self.prog.lines) and not self.prog.lines[i].lstrip().startswith("bb0:"):
+                m = re.match(r"^\s*debug \w+ => \(?\*?\(?\(\*_\d+\)\.(\d+): ", self.prog.lines[i]) or re.match(r"^\s*debug \w+ => \(?\*?\(_1\.(\d+): ", self.prog.lines[i])
+                if m:
+                    mx = max(mx, int(m.group(1)))
+                i += 1
+            cache[fn] = mx + 1
+        want = cache[fn]
+        last = ops[-1][1].local
+        out = list(vals)
+        while len(out) < want:
+            last += 1
+            c = fr.cells.get(last)
+            if c is None or c.v is None:
+                break
+            out.append(c.v)
+        return out
+
     def int_ty(self, fr, op):
         return self.operand_type(fr.body, op)
 
     def binop(self, fr, opname, a_op, b_op, dest_ty):
         a, b = self.eval_operand(fr, a_op), self.eval_operand(fr, b_op)
         ty = self.int_ty(fr, a_op)
-        if ty == "?":
-            ty = self.int_ty(fr, b_op)
+        if ty == "?" or (int_width(ty) is None and int_width(self.int_ty(fr, b_op)) is not None):
+            ty = self.int_ty(fr, b_op)        # e.g. a named const on the left whose type is not printed at the use
         if opname == "Offset":
             raise Unsupported("pointer offset")
         if isinstance(a, float) or isinstance(b, float):
@@ -905,6 +962,16 @@ class Interp:
                 return
         if ty.startswith("{async fn body of tokio::"):
             return
+        if ty.startswith("{async block@"):
+            fn = self.async_block_fn(ty)
+            shim = (fn + "::{coroutine_drop}") if fn else None
+            if shim and shim in self.prog.fn_index:
+                try:
+                    r = self.eval_place_ref(fr, place)
+                except Exception:
+                    return
+                self.drop_coroutine(r, shim)
+            return
         if ty.startswith("{async fn body of "):
             # a suspended (or never polled) future of a crate `async fn`: run its drop shim from the MIR dump
             m = re.match(r"^\{async fn body of (.*?)\(\)\}$", ty)
@@ -1048,14 +1115,40 @@ class Interp:
     def closure_fn(self, clos):
         """find the MIR body of a closure aggregate via its span"""
         name = clos.ty
+        within = None
+        if "#in:" in name:
+            name, within = name.split("#in:", 1)
         span = name[len("{closure@"):-1]
         cache = self.prog.__dict__.setdefault("_closure_cache", {})
-        if span in cache:
-            return cache[span]
+        key = (span, within)
+        if key in cache:
+            return cache[key]
         found = None
         needle = "{closure@" + span + "}"
         for fname, ln in self.prog.fn_index.items():
             if "{closure#" in fname and needle in self.prog.lines[ln]:
+                if within is not None:
+                    base = within.split("@")[0]
+                    if not (fname.startswith(base + "::") and re.fullmatch(r"\{closure#\d+\}", fname[len(base) + 2:])):
+                        continue          # a closure of the same macro span created by another function
+                found = fname
+                break
+        cache[key] = found
+        return found
+
+    def async_block_fn(self, ty):
+        """resume function of an `{async block@span}` / `{coroutine@span}` value"""
+        m = re.match(r"^\{(?:async block|coroutine)@(.*?)(?: \(#\d+\))?\}$", ty)
+        if not m:
+            return None
+        span = m.group(1)
+        cache = self.prog.__dict__.setdefault("_ablock_cache", {})
+        if span in cache:
+            return cache[span]
+        found = None
+        needle = "{async block@" + span + "}"
+        for fname, ln in self.prog.fn_index.items():
+            if "{closure#" in fname and not fname.endswith("{coroutine_drop}") and needle in self.prog.lines[ln]:
                 found = fname
                 break
         cache[span] = found
